@@ -334,9 +334,10 @@ def run_latent_domains(ctx: Ctx):
     rng = ctx.rng
     for n in range(ctx.pick(3, 12)):
         fnorm = rng.choice([None, 'linear(0.01, 0)', 'linear(2, 1)'])
-        system, _ = systems.field_input_system(_random.Random(ctx.seed * 53 + n), name=f'lat{n}', field_norm=fnorm)
+        ffirst = n % 2 == 1      # every other case lists the field quantity before the scalar input
+        system, _ = systems.field_input_system(_random.Random(ctx.seed * 53 + n), name=f'lat{n}', field_norm=fnorm, field_first=ffirst)
         comp = system.components[0]
-        case = {'latent_case': n, 'field_norm': fnorm}
+        case = {'latent_case': n, 'field_norm': fnorm, 'field_listed_first': ffirst}
         ctx.case(case, nontrivial=True, kind='latent-domains')
         try:
             for b in [(0, 0), (1, 0), (0, 1), (1, 1)]:
@@ -351,6 +352,10 @@ def run_latent_domains(ctx: Ctx):
             bad = [t for t in g if not (lo - 1e-9 * (hi - lo) <= t <= hi + 1e-9 * (hi - lo))]
             if not g or bad:
                 ctx.violate('C09:outside-domain', f'collocation points of latent coefficient {i}: {g}; latent domain {(lo, hi)}', case); break
+        dlo, dhi = comp.inputs['d'].get_domain()
+        gd = [float(t) for t in td.x_grids.get('d', [])]
+        if not gd or any(not (dlo - 1e-9 <= t <= dhi + 1e-9) for t in gd):
+            ctx.violate('C09:outside-domain', f'collocation points of the scalar input d: {gd}; its domain is {(dlo, dhi)}', case)
 
 
 def run(ctx: Ctx):
